@@ -167,38 +167,118 @@ def widths(chk, repo):
 
 
 def descs(chk, repo):
+    """R19.3: which (terminal, sync manager, byte, size) a descriptor
+    resolves to, by abstract execution of PacketDesc.__get__ and
+    ProcessDesc.__get__ on an abstract terminal and on an abstract Struct
+    channel (with and without a linked device); PacketVar's constructor is
+    a recording stand-in"""
     pd = repo.cls(C + "ProcessDesc")
-    g = pd.methods["__get__"]
-    ok = bool(find("index = self.index + instance.position_offset[None]", g,
-                   mode="stmt")) and bool(find(
-        "(sm, offset, size) = terminal.pdos[index, self.subindex]", g,
-        mode="stmt")) and bool(find("PacketVar(terminal, sm, offset, size)",
-                                    g))
-    chk.ob("R19.3", pd.qualname + ".__get__", "(sm, offset, size) come from "
-           "the PDO table at index + CoE offset, subindex", ok, g,
-           "the mapping read from the terminal")
-    ov = [s for s in walk_no_nested(g) if isinstance(s, ast.If) and match(
-        "self.size is not None", s.test) is not None]
-    ok = len(ov) == 1 and len(ov[0].body) == 1 and match_stmt(
-        "size = self.size", ov[0].body[0]) is not None
-    chk.ob("R19.3", pd.qualname + ".__get__", "a declared size overrides "
-           "only the size", ok, g, "sm and offset stay the mapped ones")
     kd = repo.cls(C + "PacketDesc")
-    g = kd.methods["__get__"]
-    ok = bool(find("offset = instance.position_offset[self.sm]", g,
-                   mode="stmt")) and bool(find(
-        "PacketVar(terminal, self.sm, self.position + offset, self.size)",
-        g))
+    st = repo.cls(C + "Struct")
+    et = repo.cls(C + "EBPFTerminal")
+    smc = repo.cls("ebpfcat.ethercat.SyncManager")
+    sm = Evaluator(repo, smc.module, smc).enum_members(smc)
+    IN, OUT = sm["IN"], sm["OUT"]
+    made = []
+
+    def ctor(ev_, ci_, args, kwargs):
+        o = Obj(None, {"args": tuple(args)})
+        o.fields["get"] = ("hook", lambda dev, _o=o: ("read by", dev, _o))
+        made.append(o)
+        return o
+
+    def run_(ci_, desc_fields, inst):
+        me = Obj(ci_, dict(desc_fields))
+        ev_ = Evaluator(repo, ci_.module, ci_)
+        ev_.ctor_hooks[C + "PacketVar"] = ctor
+        try:
+            return me, ev_.call_function(ci_.methods["__get__"],
+                                         [me, inst, Opaque("owner")], cls=ci_)
+        except (Unknown, Raised) as e:
+            raise AnalysisError(f"R19.3: {ci_.qualname}.__get__ cannot be "
+                                f"evaluated: {e}")
+    bad = {pd.qualname: [], kd.qualname: []}
+    term = Obj(et, {"position_offset": {OUT: 0, IN: 0, None: 0},
+                    "pdos": {(0x6000, 1): (IN, 4, "H"),
+                             (0x6010, 1): (IN, 9, "H"),
+                             (0x7000, 2): (OUT, 2, 3)}})
+    dev = Obj(None, {"_": "device"})
+    for linked in (None, dev):
+        for inst, off in (
+                (term, {OUT: 0, IN: 0, None: 0}),
+                (Obj(st, {"terminal": term, "device": linked,
+                          "position_offset": {OUT: 24, IN: 22, None: 0x10}}),
+                 {OUT: 24, IN: 22, None: 0x10})):
+            is_struct = inst is not term
+            # PacketDesc(sm, position, size)
+            for smv, pos, size in ((IN, 1, "23p"), (OUT, 0, 2)):
+                del made[:]
+                me, r = run_(kd, {"sm": smv, "position": pos, "size": size},
+                             inst)
+                want = (term, smv, pos + off[smv], size)
+                got = made[0].fields["args"] if len(made) == 1 else None
+                if got is None or got[0] is not want[0] or got[1:] != \
+                        want[1:]:
+                    bad[kd.qualname].append(
+                        f"PacketDesc({smv.name}, {pos}, {size!r}) in a "
+                        f"{'Struct' if is_struct else 'terminal'} -> "
+                        f"{got[1:] if got else made}")
+                    continue
+                if is_struct and linked is not None:
+                    okr = r == ("read by", linked, made[0])
+                else:
+                    okr = r is made[0]
+                if not okr:
+                    bad[kd.qualname].append(
+                        f"PacketDesc in a {'linked ' if linked else ''}"
+                        f"{'Struct' if is_struct else 'terminal'} returns "
+                        f"{r!r}")
+            # ProcessDesc(index, subindex, size=None)
+            base = off[None]
+            for index, sub, size, want_entry in (
+                    (0x6000 - base, 1, None, (IN, 4 if not base else None,
+                                              "H")),
+                    (0x6010 - base, 1, "h", (IN, 9, "h")),
+                    (0x6010 - base, 1, 0, (IN, 9, 0)),
+                    (0x7000 - base, 2, None, (OUT, 2, 3))):
+                del made[:]
+                key = (index + base, sub)
+                if key not in term.fields["pdos"]:
+                    continue
+                me, r = run_(pd, {"index": index, "subindex": sub,
+                                  "size": size}, inst)
+                e_sm, e_off, e_size = term.fields["pdos"][key]
+                want = (term, e_sm, e_off, size if size is not None
+                        else e_size)
+                got = made[0].fields["args"] if len(made) == 1 else None
+                if got is None or got[0] is not want[0] or got[1:] != \
+                        want[1:]:
+                    bad[pd.qualname].append(
+                        f"ProcessDesc({index:#x}, {sub}, {size!r}) at CoE "
+                        f"offset {base:#x} -> {got[1:] if got else made}")
+                    continue
+                if is_struct and linked is not None:
+                    okr = r == ("read by", linked, made[0])
+                else:
+                    okr = r is made[0]
+                if not okr:
+                    bad[pd.qualname].append(
+                        f"ProcessDesc in a {'linked ' if linked else ''}"
+                        f"{'Struct' if is_struct else 'terminal'} returns "
+                        f"{r!r}")
+    chk.ob("R19.3", pd.qualname + ".__get__", "(sm, offset, size) come from "
+           "the PDO table at index + CoE offset, subindex; a declared size "
+           "overrides only the size; inside a linked Struct the value is "
+           "read for the struct's device", not bad[pd.qualname],
+           pd.methods["__get__"], "; ".join(bad[pd.qualname][:2]) or
+           "terminal and Struct channel, linked and unlinked (abstract "
+           "execution)")
     chk.ob("R19.3", kd.qualname + ".__get__", "position + the channel's "
-           "offset for that sync manager", ok, g,
-           "position_offset[sm]")
-    for ci, g in ((pd, pd.methods["__get__"]), (kd, kd.methods["__get__"])):
-        ok = bool(find("ret.get(device)", g)) and bool(find(
-            "terminal = instance.terminal", g, mode="stmt")) and bool(find(
-            "device = instance.device", g, mode="stmt"))
-        chk.ob("R19.3", ci.qualname + ".__get__", "inside a Struct the "
-               "variable belongs to the struct's terminal and device", ok, g,
-               "terminal/device taken from the Struct instance")
+           "offset for that sync manager, on the struct's terminal; inside "
+           "a linked Struct the value is read for the struct's device",
+           not bad[kd.qualname], kd.methods["__get__"],
+           "; ".join(bad[kd.qualname][:2]) or "terminal and Struct channel, "
+           "linked and unlinked (abstract execution)")
     sd = repo.cls(C + "StructDesc")
     init = sd.methods["__init__"]
     chk.analysed(sd.qualname + ".__init__")
